@@ -34,7 +34,13 @@ class P(Prop):
             "mass fractions, CO2 emissions) interleaved and the run repeated: (electric) outputs after every run are compared in Coq "
             "with the balance model of THAT run's inputs, (mechanical) likewise with the shaft model, (front end) one "
             "MachineryCalculation object used for 2-3 operating profiles of different length; in every stream run k is also "
-            "performed on a freshly built object and the results compared. Non-trivial = the series length changes")
+            "performed on a freshly built object and the results compared; (emachine / lmachine) field-level histories "
+            "on one electric system / one shaft line: single-field setters (status, sharing mode, input of one component; breaker matrix; "
+            "engine status, load, PTI/PTO shaft power, full-PTI flags), PARTIAL supplies between balances, balances repeated at once, complete "
+            "re-supplies with another series length - the whole operation list is run through the state machine of Model/Machine.v in Coq "
+            "(erun / lrun) and its observation after EVERY balance compared with what the object holds (source outputs, inputs of "
+            "PTI/PTO and storage, engine outputs and rewritten statuses, PTI/PTO shaft power); the oracle re-runs each balance on a fresh "
+            "object given the fields the reused object holds. Non-trivial = the series length changes / a partial supply occurs")
     QUICK_N = 100
     THOROUGH_N = 1500
     SHARD = 6
